@@ -804,9 +804,8 @@ Proof.
   destruct (negb xl && negb xr).
   - intros E. inversion E; subst. destruct (N.eqb (pname a) (pname b)); repeat split; auto;
       intros v Hv; inversion Hv; subst; left; exists a; auto.
-  - destruct (negb xl); intros E; inversion E; subst; repeat split; auto; intros v Hv; inversion Hv; subst.
-    + left. exists v. auto.
-    + right. reflexivity.
+  - destruct (negb xl); intros E; inversion E; subst; repeat split; auto; intros v Hv; inversion Hv; subst;
+      first [left; exists v; auto | right; reflexivity].
 Qed.
 
 (* ---- assembling the final list ---- *)
@@ -971,3 +970,182 @@ Proof.
         destruct vk as [w|]; [|destruct Hin]. destruct Hin as [<-|[]]. exact (proj1 (Vk w eq_refl) Hx).
 Qed.
 End Walk.
+
+(* ================================================================== *)
+(* 4. from validity and role consistency of the inputs                 *)
+
+Lemma kind_eqb_eq a b : kind_eqb a b = true -> a = b.
+Proof. destruct a, b; cbn; congruence. Qed.
+
+Lemma role_aux_in ps : forall idx p,
+  NoDup (names_of ps) -> In p ps -> exists i, role_aux ps idx (pname p) = Some (pkind p, i).
+Proof.
+  induction ps as [|x ps IH]; intros idx p Hn Hp; [destruct Hp|].
+  cbn [names_of map] in Hn. inversion Hn as [|? ? Hx Hn']; subst. cbn [role_aux].
+  destruct Hp as [->|Hp]; [rewrite N.eqb_refl; eauto|].
+  destruct (N.eqb_spec (pname p) (pname x)) as [E|_]; [|apply IH; assumption].
+  exfalso. apply Hx. rewrite <- E. apply in_map. exact Hp.
+Qed.
+
+Lemma role_aux_pos ps : forall idx i p,
+  NoDup (names_of ps) -> nth_error (positional ps) i = Some p ->
+  role_aux ps idx (pname p) = Some (pkind p, (idx + i)%nat).
+Proof.
+  induction ps as [|x ps IH]; intros idx i p Hn Hp; [destruct i; discriminate|].
+  cbn [names_of map] in Hn. inversion Hn as [|? ? Hx Hn']; subst.
+  unfold positional in Hp. cbn [filter] in Hp. fold (positional ps) in Hp. cbn [role_aux].
+  assert (Hne : forall k q, nth_error (positional ps) k = Some q -> N.eqb (pname q) (pname x) = false).
+  { intros k q Hq. apply N.eqb_neq. intros E. apply Hx. rewrite <- E. apply in_map.
+    apply nth_error_In in Hq. unfold positional in Hq. apply filter_In in Hq. tauto. }
+  destruct (is_positional x) eqn:Px.
+  - destruct i as [|i]; cbn [nth_error] in Hp.
+    + inversion Hp; subst. rewrite N.eqb_refl, Nat.add_0_r. reflexivity.
+    + rewrite (Hne i p Hp). rewrite (IH (S idx) i p Hn' Hp). f_equal. f_equal. lia.
+  - rewrite (Hne i p Hp). apply IH; assumption.
+Qed.
+
+Lemma roles_agree_spec a b x ra rb :
+  roles_agree a b = true -> In x (names_of a) -> role a x = Some ra -> role b x = Some rb ->
+  fst ra = fst rb /\ snd ra = snd rb.
+Proof.
+  unfold roles_agree. intros H Hx Ea Eb. rewrite forallb_forall in H.
+  apply in_map_iff in Hx. destruct Hx as [p [E Hp]]. specialize (H p Hp). rewrite E, Ea, Eb in H.
+  unfold role_eqb in H. apply andb_true_iff in H. destruct H as [H1 H2].
+  split; [apply kind_eqb_eq; exact H1|apply Nat.eqb_eq; exact H2].
+Qed.
+
+Lemma positional_flatten so : kinds_ok so -> positional (flatten so) = posargs so ++ pokargs so.
+Proof.
+  intros (H1 & H2 & H3 & H4 & H5). unfold flatten. rewrite app_assoc, positional_app.
+  rewrite positional_all, positional_none; [apply app_nil_r| |].
+  - intros p Hp. unfold is_positional. apply in_app_or in Hp. destruct Hp as [Hp|Hp].
+    + destruct (varargs so) as [v|] eqn:E; [|destruct Hp]. destruct Hp as [<-|[]]. rewrite (H3 v eq_refl). reflexivity.
+    + apply in_app_or in Hp. rewrite Forall_forall in H4. destruct Hp as [Hp|Hp]; [rewrite (H4 p Hp); reflexivity|].
+      destruct (varkwargs so) as [v|] eqn:E; [|destruct Hp]. destruct Hp as [<-|[]]. rewrite (H5 v eq_refl). reflexivity.
+  - intros p Hp. unfold is_positional. rewrite Forall_forall in H1, H2. apply in_app_or in Hp.
+    destruct Hp as [Hp|Hp]; [rewrite (H1 p Hp)|rewrite (H2 p Hp)]; reflexivity.
+Qed.
+
+Lemma dsuffix_dsuf ps : (forall p, In p ps -> is_positional p = true) -> dsuffix ps -> dsuf ps.
+Proof.
+  induction ps as [|p ps IH]; intros Hp; cbn [dsuffix dsuf]; [auto|]. intros [H1 H2]. split.
+  - intros Hd. specialize (H1 (Hp p (or_introl eq_refl)) Hd). apply Forall_forall. intros q Hq.
+    rewrite Forall_forall in H1. apply (H1 q Hq). apply Hp. right. exact Hq.
+  - apply IH; [|exact H2]. intros q Hq. apply Hp. right. exact Hq.
+Qed.
+
+Lemma dsuf_of_valid s : valid_sig (params s) = true ->
+  dsuf (posargs (sort_params s) ++ pokargs (sort_params s)).
+Proof.
+  intros Hv. pose proof (sort_flatten_roundtrip s Hv) as Hf. pose proof (sort_params_kinds s) as HK.
+  destruct (valid_sig_parts _ Hv) as (Hval & _). apply validate_spec in Hval. destruct Hval as (_ & D & _).
+  rewrite <- Hf in D. unfold flatten in D. rewrite app_assoc in D. apply dsuffix_app in D. destruct D as [D _].
+  apply dsuffix_dsuf; [|exact D]. destruct HK as (H1 & H2 & _). rewrite Forall_forall in H1, H2.
+  intros p Hp. unfold is_positional. apply in_app_or in Hp. destruct Hp as [Hp|Hp]; [rewrite (H1 p Hp)|rewrite (H2 p Hp)]; reflexivity.
+Qed.
+
+(* the merger never produces a list the constructor refuses (binary step, the
+   left names only have to agree with the right ones: [roles_agree a b]) *)
+Theorem merger_valid_of_roles a b acc :
+  valid_sig (params a) = true -> valid_sig (params b) = true ->
+  roles_agree (params a) (params b) = true ->
+  merger (sort_params a) (sort_params b) = Ok acc -> validate (flatten acc) = true.
+Proof.
+  intros Va Vb Hr.
+  pose proof (sort_flatten_roundtrip a Va) as Fa. pose proof (sort_flatten_roundtrip b Vb) as Fb.
+  pose proof (sort_params_kinds a) as Ka. pose proof (sort_params_kinds b) as Kb.
+  pose proof (validate_nodup _ (proj1 (valid_sig_parts _ Va))) as Na.
+  pose proof (validate_nodup _ (proj1 (valid_sig_parts _ Vb))) as Nb.
+  apply merger_rc_valid; auto.
+  - rewrite Fa. exact Na.
+  - rewrite Fb. exact Nb.
+  - rewrite Fa, Fb. intros p q Hp Hq E.
+    destruct (role_aux_in (params a) 0 p Na Hp) as [i Ei]. destruct (role_aux_in (params b) 0 q Nb Hq) as [j Ej].
+    rewrite <- E in Ej.
+    destruct (roles_agree_spec _ _ (pname p) _ _ Hr (in_map pname _ _ Hp) Ei Ej) as [X _]. exact X.
+  - rewrite <- (positional_flatten _ Ka), <- (positional_flatten _ Kb), Fa, Fb.
+    intros i j p q Hp Hq E.
+    pose proof (role_aux_pos (params a) 0 i p Na Hp) as Ei. pose proof (role_aux_pos (params b) 0 j q Nb Hq) as Ej.
+    rewrite <- E in Ej.
+    assert (Hin : In (pname p) (names_of (params a))).
+    { apply in_map. apply nth_error_In in Hp. unfold positional in Hp. apply filter_In in Hp. tauto. }
+    destruct (roles_agree_spec _ _ (pname p) _ _ Hr Hin Ei Ej) as [_ X]. exact X.
+  - apply dsuf_of_valid. exact Va.
+  - apply dsuf_of_valid. exact Vb.
+Qed.
+
+Lemma rc_pair_agree a b : role_consistent [a; b] = true -> roles_agree a b = true.
+Proof.
+  cbn [role_consistent forallb]. intros H. apply andb_true_iff in H. destruct H as [H _].
+  apply andb_true_iff in H. destruct H as [H _]. apply andb_true_iff in H. tauto.
+Qed.
+
+(* ---- C15_rc_valid ---- *)
+Theorem merge_rc_valid a b :
+  valid_sig (params a) = true -> valid_sig (params b) = true ->
+  role_consistent [params a; params b] = true ->
+  merge [a; b] <> Err ValueErr.
+Proof.
+  intros Va Vb Hr E. apply merge_value_error_only_from_validation in E. destruct E as [acc [E V]].
+  cbn [merge_steps] in E. apply bind_ok in E. destruct E as [acc' [E1 E2]]. inversion E2; subst acc'.
+  apply to_incompatible_ok in E1.
+  rewrite (merger_valid_of_roles a b acc Va Vb (rc_pair_agree _ _ Hr) E1) in V. discriminate.
+Qed.
+
+(* the only failure is IncompatibleSignatures *)
+Theorem merge_rc_only_incompatible a b e :
+  valid_sig (params a) = true -> valid_sig (params b) = true ->
+  role_consistent [params a; params b] = true ->
+  merge [a; b] = Err e -> e = Incompatible.
+Proof.
+  intros Va Vb Hr E. pose proof (merge_only_value_errors a [b]) as B. rewrite E in B.
+  destruct e as [| |t]; [reflexivity| |destruct B]. exfalso. exact (merge_rc_valid a b Va Vb Hr E).
+Qed.
+
+(* merge succeeds exactly when the merger stages succeed, and returns their result *)
+Theorem merge_rc_ok_iff_merger a b :
+  valid_sig (params a) = true -> valid_sig (params b) = true ->
+  role_consistent [params a; params b] = true ->
+  match merger (sort_params a) (sort_params b) with
+  | Ok acc => merge [a; b] = Ok (mkSig (flatten acc) (ret a) (uret a) (ssrc acc) (sdep acc))
+  | Err _ => merge [a; b] = Err Incompatible
+  end.
+Proof.
+  intros Va Vb Hr. pose proof (merger_benign (sort_params a) (sort_params b)) as B.
+  cbn [merge merge_steps]. destruct (merger (sort_params a) (sort_params b)) as [acc|e] eqn:E.
+  - cbn [to_incompatible bind]. unfold apply_params.
+    rewrite (merger_valid_of_roles a b acc Va Vb (rc_pair_agree _ _ Hr) E). reflexivity.
+  - destruct e as [| |t]; cbn in *; [reflexivity|reflexivity|destruct B].
+Qed.
+
+(* ---- role consistency cannot be dropped: valid inputs, plain ValueError from
+   the final constructor: merge((a, /, **kwargs), ( *args, a)) would have two parameters a ---- *)
+Theorem merge_valid_without_rc_refuted :
+  exists a b, valid_sig (params a) = true /\ valid_sig (params b) = true /\
+              role_consistent [params a; params b] = false /\ merge [a; b] = Err ValueErr.
+Proof.
+  exists (mkSig [mkParam 1 PO None None UEmpty; mkParam 10 VK None None UEmpty] None UEmpty [] []),
+         (mkSig [mkParam 9 VP None None UEmpty; mkParam 1 KO None None UEmpty] None UEmpty [] []).
+  repeat split; vm_compute; reflexivity.
+Qed.
+
+(* the hypotheses are satisfiable on non-trivial inputs: a success and an
+   IncompatibleSignatures case (names a=1 b=2 c=3 d=4 args=9 kwargs=10) *)
+Example rc_valid_example :
+  let a := mkSig [mkParam 1 PO None None UEmpty; mkParam 2 PK (Some 1) None UEmpty;
+                  mkParam 9 VP None None UEmpty; mkParam 3 KO None None UEmpty] None UEmpty [] [] in
+  let b := mkSig [mkParam 1 PO None None UEmpty; mkParam 2 PK None None UEmpty; mkParam 4 PK (Some 1) None UEmpty;
+                  mkParam 10 VK None None UEmpty] None UEmpty [] [] in
+  let c := mkSig [mkParam 1 PO None None UEmpty; mkParam 4 KO None None UEmpty] None UEmpty [] [] in
+  valid_sig (params a) = true /\ valid_sig (params b) = true /\ valid_sig (params c) = true /\
+  role_consistent [params a; params b] = true /\ role_consistent [params a; params c] = true /\
+  (exists r, merge [a; b] = Ok r /\ length (params r) = 4%nat) /\ merge [a; c] = Err Incompatible.
+Proof. cbv zeta. repeat split; try (vm_compute; reflexivity). eexists. split; vm_compute; reflexivity. Qed.
+
+Print Assumptions merger_rc_valid.
+Print Assumptions merger_valid_of_roles.
+Print Assumptions merge_rc_valid.
+Print Assumptions merge_rc_only_incompatible.
+Print Assumptions merge_rc_ok_iff_merger.
+Print Assumptions merge_valid_without_rc_refuted.
+Print Assumptions rc_valid_example.
